@@ -305,6 +305,12 @@ def _run(chk, repo, host, meta, ws_names, replay):
         if mc.coverage.get("Step", 0) == 0:
             raise core.ToolError("MC_Features: action Step never taken (vacuous)")
         chk.add_tlc(mc)
+        if not chk.quick:
+            # contrast: with host and target unified (resolver 1) the pair that the split breaks is coherent
+            mc1 = core.tlc("mc/MC_Features.tla", "mc/MC_Features_r1.cfg", workers=4, timeout=1800)
+            if mc1.violation:
+                raise core.ToolError("MC_Features (resolver 1): the resolver model violates its own invariants:\n" + mc1.violation)
+            chk.add_tlc(mc1)
         # 2. the configuration space of the real workspace
         root = featmeta.write_root_module(chk.path("FeatGen.tla"), "Gen_Features", meta)
         sels = chk.path("selections.ndjson")
